@@ -32,7 +32,7 @@ type srvStream struct {
 // faults that writes one stream of application data before the handshake completes. The run line reports
 // what the client API said and what the server application read on the second connection.
 func (sc *scenario) runZeroRTT() (out *outcome) {
-	out = &outcome{cids: "-", ccids: "-", vers: "-", acc: "-", echo: "-", redial: "-", calpn: "-", salpn: "-"}
+	out = &outcome{cids: "-", ccids: "-", vers: "-", clag: -1, acc: "-", echo: "-", redial: "-", calpn: "-", salpn: "-"}
 	start := time.Now()
 	savedRand := rand.Reader
 	rand.Reader = &detRand{r: vh.NewRand(sc.seed ^ 0x5eed)}
@@ -46,12 +46,12 @@ func (sc *scenario) runZeroRTT() (out *outcome) {
 	sc.resetCh = make(chan struct{})
 	sim := &simnet.Simnet{Router: sc.nw}
 	cpc := sim.NewEndpoint(clientAddr, simnet.NodeBiDiLinkSettings{})
-	spc := sim.NewEndpoint(serverAddr, simnet.NodeBiDiLinkSettings{Latency: oneWay})
+	spc := sim.NewEndpoint(serverAddr, simnet.NodeBiDiLinkSettings{}) // the latency is applied by the delivery queue
 	if err := sim.Start(); err != nil {
 		out.dial = "E:setup"
 		return
 	}
-	sc.cpc = cpc
+	sc.cpc, sc.spc = cpc, spc // sc.str stays nil: the server is not observed in the resumption scenarios
 	var rejectNow atomic.Bool
 	sbase := &quic.Config{Allow0RTT: true}
 	sconf := sbase.Clone()
